@@ -371,6 +371,42 @@ def inline_unknown_temporaries(fn, known_sigs, known_names=frozenset()):
     return done
 
 
+def _reads_before_writes(stmts, ids, mentioned):
+    """True when, in execution order, no name of `mentioned` can be written before a read in `ids` happens.  Simple statements
+    evaluate their right-hand side before they store; an `if` is followed branch by branch (what one branch writes does not
+    precede the reads of the other); a loop or any other compound statement that holds a read counts with everything it writes."""
+    def holds(node):
+        return any(id(m) in ids for m in ast.walk(node))
+
+    def rec(block, written):
+        for later in block:
+            if isinstance(later, (ast.Assign, ast.AugAssign, ast.Expr, ast.Return, ast.AnnAssign)):
+                if holds(later):
+                    if mentioned & written:
+                        return None
+                    calls = [ast.Expr(value=c) for c in ast.walk(later) if isinstance(c, ast.Call)]
+                    if mentioned & (_written_names(calls) - {n.id for n in ast.walk(later) if isinstance(n, ast.Name) and isinstance(n.ctx, ast.Store)}):
+                        # a call of the same statement may change what the temporary stands for before a later operand is read
+                        if not isinstance(later, ast.Return):
+                            return None
+                written = written | _written_names([later])
+            elif isinstance(later, ast.If):
+                if holds(later.test) and mentioned & written:
+                    return None
+                written = written | _written_names([ast.Expr(value=later.test)])
+                a = rec(later.body, written)
+                b = rec(later.orelse, written)
+                if a is None or b is None:
+                    return None
+                written = a | b
+            else:
+                if holds(later) and mentioned & (written | _written_names([later])):
+                    return None
+                written = written | _written_names([later])
+        return written
+    return rec(stmts, set()) is not None
+
+
 def _inline_multi(fn, body, i, st, t, uses):
     """Several reads of a pure temporary: inlined when every read is in a read-only position (operand of an operator or
     comparison, base of an attribute / subscript READ, argument of a call on the pure whitelist, iterable of a loop), all reads
@@ -423,15 +459,7 @@ def _inline_multi(fn, body, i, st, t, uses):
     ids = {id(u) for u in uses}
     holders = [k for k, later in enumerate(rest) if any(id(m) in ids for m in ast.walk(later))]
     last = max(holders)
-    written = set()
-    for k, later in enumerate(rest[:last + 1]):
-        simple = isinstance(later, (ast.Assign, ast.AugAssign, ast.Expr, ast.Return))
-        if k == last and simple and k in holders:
-            calls = [ast.Expr(value=c) for c in ast.walk(later) if isinstance(c, ast.Call)]
-            written |= _written_names(calls) - {n.id for n in ast.walk(later) if isinstance(n, ast.Name) and isinstance(n.ctx, ast.Store)}
-        else:
-            written |= _written_names([later])
-    if mentioned & written:
+    if not _reads_before_writes(rest[:last + 1], ids, mentioned):
         # a cached attribute read (`r = obs.r`, `N = self.N`) stays valid as long as that attribute is not stored and the object
         # is not handed to one of the in-place operations of the packages
         if not (_attr_chain_of_param(fn, st.value) and not _attr_may_change(st.value, rest[:last + 1])):
